@@ -1300,7 +1300,7 @@ func (g *TxnGen) genIndexShuffle(t *rapid.T, st State) []Op {
 		}
 		return r
 	}
-	kind := rapid.IntRange(0, 5).Draw(t, "shufflekind")
+	kind := rapid.IntRange(0, 6).Draw(t, "shufflekind")
 	switch {
 	case kind == 0 && len(uuids) >= 2: // swap
 		p := rapid.Permutation(uuids).Draw(t, "pair")
@@ -1348,6 +1348,20 @@ func (g *TxnGen) genIndexShuffle(t *rapid.T, st State) []Op {
 			}
 		}
 		return ops
+	case kind == 6: // a row is renamed, deleted through its new value, and its old value reused
+		a := rapid.SampledFrom(uuids).Draw(t, "renamed")
+		fresh := Row{}
+		var where []Cond
+		for _, cn := range idx {
+			fresh[cn] = GenVal(t, *tb.Col(cn), pool)
+			where = append(where, Cond{Col: cn, Fn: "==", Val: fresh[cn].Clone()})
+		}
+		ins := g.GenInsert(t, tb, pool, "")
+		for cn, v := range idxVals(a) {
+			ins.Row[cn] = v
+		}
+		Label("generator", "index:renamed-deleted-by-new-value-old-value-reused")
+		return []Op{{Op: "update", Table: tb.Name, Where: byUUID(a), Row: fresh}, {Op: "delete", Table: tb.Name, Where: where}, ins}
 	default: // two inserts with the same index value, one of them deleted again
 		a := g.GenInsert(t, tb, pool, "")
 		b := g.GenInsert(t, tb, pool, "")
